@@ -151,7 +151,7 @@ func AcceptedLength(regexString string) (AcceptedLengths, error) {
 			case syntax.InstAlt, syntax.InstAltMatch:
 				for _, s := range seen {
 					if s == pos {
-						cache[entry] = AcceptedLengths{math.MaxUint64, math.MaxUint64}
+						// only true on this path: reached from outside the loop the same entry has a finite minimum
 						return AcceptedLengths{math.MaxUint64, math.MaxUint64}, nil
 					}
 				}
